@@ -364,9 +364,50 @@ def snapshot(obj):
     return ("val", type(obj).__name__, repr(obj))
 
 
+MEM_LAYOUTS = ["C", "C", "C", "F", "lazyT", "strided", "neg", "readonly"]
+
+
+def band_chunking(rng: random.Random, ns: int):
+    """chunking of the NON-spatial axis is an input dimension too: one band per chunk, all in one, groups of 2, irregular"""
+    if ns == 1:
+        return 1
+    opts = [1, ns, 2, [2] + [1] * (ns - 2), [1] * (ns - 2) + [2], [1, ns - 1], [ns - 1, 1]]
+    c = rng.choice(opts)
+    return c if isinstance(c, int) else [v for v in c if v > 0]
+
+
+def lay_out(pix, ch, layout: str, ydim: int):
+    """dask array with the same values whose BLOCKS have another memory layout: C-contiguous, F-contiguous blocks that own
+    their memory, lazily transposed (F-contiguous views), strided views, negative strides, read-only blocks"""
+    import dask.array as da  # pylint: disable=import-outside-toplevel
+
+    if layout == "F":
+        return da.from_array(pix, chunks=ch).map_blocks(np.asfortranarray, dtype=pix.dtype)
+    if layout == "lazyT":
+        axes = list(range(pix.ndim))
+        axes[ydim], axes[ydim + 1] = axes[ydim + 1], axes[ydim]
+        src = np.ascontiguousarray(pix.transpose(axes))
+        ch_t = list(ch)
+        ch_t[ydim], ch_t[ydim + 1] = ch_t[ydim + 1], ch_t[ydim]
+        return da.from_array(src, chunks=tuple(ch_t)).map_blocks(np.ascontiguousarray, dtype=pix.dtype).transpose(axes)
+    if layout == "strided":
+        big = np.zeros(tuple(2 * n if i in (ydim, ydim + 1) else n for i, n in enumerate(pix.shape)), dtype=pix.dtype)
+        sl = tuple(slice(None, None, 2) if i in (ydim, ydim + 1) else slice(None) for i in range(pix.ndim))
+        big[sl] = pix
+        return da.from_array(big[sl], chunks=ch)
+    if layout == "neg":
+        sl = tuple(slice(None, None, -1) if i == ydim else slice(None) for i in range(pix.ndim))
+        return da.from_array(np.ascontiguousarray(pix[sl])[sl], chunks=ch)
+    if layout == "readonly":
+        ro = pix.copy()
+        ro.setflags(write=False)
+        return da.from_array(ro, chunks=ch)
+    return da.from_array(pix, chunks=ch)
+
+
 def gen_cfg(rng: random.Random, big: bool):
     ax = rng.choice(["YX", "YX", "YXS", "SYX"])
-    ns = 1 if ax == "YX" else rng.randint(1, 4)
+    ns = 1 if ax == "YX" else rng.randint(1, 5)
     hi = 300 if big else 120
     side = lambda: rng.choice([1, 1, 2, 3, 4, 5, 8, 15, 16, 17, 31, 32, 33, rng.randint(1, hi), rng.randint(1, hi), rng.randint(1, hi)])
     ny, nx = side(), side()
@@ -470,7 +511,8 @@ def gen_cfg(rng: random.Random, big: bool):
         dst_state=rng.choice(["fresh", "fresh", "fresh", "existing-small", "existing-large", "parts-dir"]),
         recompute=recompute, bs_container=rng.choice(["list", "list", "tuple"]),
         nd_spell=rng.choice(SPELLINGS), cargs_route=rng.random() < 0.25 and cu not in ("JPEG", "WEBP", "NONE", "LZW", "PACKBITS", "LZMA"),
-        sch=rng.choice([1, ns]), spill_sz=rng.choice([None, None, 1, 5000, 20000, 100000]),
+        sch=band_chunking(rng, ns), mem_layout=rng.choice(MEM_LAYOUTS),
+        spill_sz=rng.choice([None, None, 1, 5000, 20000, 100000]),
         wpc=rng.choice([None, None, 1, 2, 3]), bigtiff=rng.choice([None, None, True, False]),
         stats=rng.choice([True, False, True]),
         sched=rng.choice(["sync", "threads1", "threads2", "threads4", "threads8", "rand", "rand", "rand"]),
@@ -504,10 +546,11 @@ def build_input(cfg, GeoBox, wrap_xr):
     cy, cx = cfg["chunks"]
     if cfg.get("irregular"):
         cy, cx = (tuple(c) for c in cfg["irregular"])
-    ch = (cy, cx) if ax == "YX" else ((cy, cx, cfg["sch"]) if ax == "YXS" else (cfg["sch"], cy, cx))
+    sch = tuple(cfg["sch"]) if isinstance(cfg["sch"], list) else cfg["sch"]
+    ch = (cy, cx) if ax == "YX" else ((cy, cx, sch) if ax == "YXS" else (sch, cy, cx))
     if cfg.get("byteorder", "=") == ">" and dt.itemsize > 1:
         pix = pix.astype(dt.newbyteorder(">"))  # same values, big-endian storage
-    dd = da.from_array(pix, chunks=ch)
+    dd = lay_out(pix, ch, cfg.get("mem_layout", "C"), 1 if ax == "SYX" else 0)
     kw = {}
     if ax == "SYX":
         kw["time"] = [f"20{i:02d}-01-01" for i in range(ns)]
@@ -1584,6 +1627,22 @@ def run(R: Run):
             dict(base_cfg, shape=[64, 300], dtype="uint8"),   # one axis aligned, the other gains a tile by padding
             dict(base_cfg, shape=[272, 16], dtype="uint8", bs_container="tuple"),
         ]
+        # memory layout of the source blocks x codec (raw bytes path incl.) x axis order, on shapes where nothing is padded or
+        # re-chunked (64x96, 16 px tiles and chunks; no level is a single tile, see K12), and band-axis chunkings of multi-band
+        # sources (groups of 2, irregular) for band-first and band-last
+        lay_m = []
+        for li, lay_ in enumerate(["F", "lazyT", "strided", "neg", "readonly", "C"]):
+            for ci, (comp_, pred_) in enumerate([("none", False), ("deflate", True), ("zstd", None), ("lerc", None), ("none", False)]):
+                ax_, ns_ = [("YX", 1), ("YXS", 3), ("SYX", 2)][(li + ci) % 3]
+                lay_m.append(dict(base_cfg, shape=[64, 96], axis=ax_, ns=ns_, sch=[1, ns_][(li + ci) % 2], dtype=["uint16", "float32", "uint8"][(li + 2 * ci) % 3],
+                                  comp=comp_, predictor=pred_, mem_layout=lay_, stats=False, pixseed=500 + 10 * li + ci,
+                                  sched=["sync", "threads4"][(li + ci) % 2]))
+        for bi, (ax_, ns_, sch_) in enumerate([("SYX", 4, 2), ("SYX", 3, [2, 1]), ("SYX", 4, [1, 3]), ("SYX", 5, [2, 2, 1]), ("YXS", 4, 2),
+                                               ("YXS", 3, [1, 2]), ("YXS", 5, [2, 1, 2]), ("SYX", 2, 1), ("SYX", 3, 3)]):
+            lay_m.append(dict(base_cfg, shape=[40, 50], axis=ax_, ns=ns_, sch=sch_, dtype="int16", stats=bool(bi % 2), pixseed=600 + bi,
+                              sched=["sync", "threads2", "rand"][bi % 3]))
+        must_ = [c_ for c_ in lay_m if c_.get("mem_layout") in ("F", "lazyT") and c_["comp"] == "none"][:3] + [c_ for c_ in lay_m if "mem_layout" not in c_][:4]
+        corpus += lay_m if not R.quick else must_ + rng.sample([c_ for c_ in lay_m if c_ not in must_], 10)
         corpus += fam_e2e
         done = 0
         for i, cfg in enumerate(corpus):
